@@ -212,7 +212,7 @@ def run_structured_workloads(rng, shapes, tier):
     if tier == "quick":
         ns = [8, 63, 64, 65, 128, 505, 512]
     for sh in shapes:
-        if sh.name not in ("opt3", "boolopt"):
+        if sh.name not in ("opt3", "boolopt", "p_opt3", "p_boolopt"):
             continue
         full = S.gen_value(rng, sh.model_fields(), maxlist=2, pnull=0.0, extreme=0.3)
         empty = S.gen_value(rng, sh.model_fields(), maxlist=0, pnull=1.0, extreme=0.3)
@@ -221,7 +221,7 @@ def run_structured_workloads(rng, shapes, tier):
             for mx in (1000, n):
                 ws.append(Workload(sh, rng.randrange(3), mx, [full] * n + [empty, "W"], "run-of-%d" % n if n in (64, 505) else "run-structured"))
             ws.append(Workload(sh, rng.randrange(3), 1000, [alt[i % 2] for i in range(n + 1)] + [full] * 9 + ["W"], "alternating"))
-        if sh.name == "boolopt":
+        if sh.name in ("boolopt", "p_boolopt"):
             # a run of >= 8192 equal levels: run header of three ULEB128 bytes
             ws.append(Workload(sh, rng.randrange(3), 10000, [full] * 8200 + [empty, "W"], "run-of-8200"))
     return ws
